@@ -1251,6 +1251,63 @@ Lemma builder_outcome ops :
   ((2 <= count_defaults ops)%nat -> build ops = Panic).
 Proof. split; [apply build_succeeds | apply build_panics]. Qed.
 
+(** ---- concurrent clients: any interleaving ----------------------------------------------------
+    A merged history [m]: the requests of one client (tag [true]) interleaved in any way with the
+    requests of all the others (tag [false]).  If no other request is routed to a host one of the
+    client's requests is routed to, the client gets the replies it would get alone. *)
+Fixpoint tagged_replies (m : list (bool * wreq)) (reps : list wire_reply) : list wire_reply :=
+  match m, reps with
+  | (true, _) :: m', r :: reps' => r :: tagged_replies m' reps'
+  | (false, _) :: m', _ :: reps' => tagged_replies m' reps'
+  | _, _ => []
+  end.
+Definition mine (m : list (bool * wreq)) : list wreq := map snd (filter (fun x => fst x) m).
+Definition others (m : list (bool * wreq)) : list wreq := map snd (filter (fun x => negb (fst x)) m).
+
+Lemma touches_cons ops r l i :
+  wire_touches ops (r :: l) i = (match wire_route ops r with Some j => Nat.eqb j i | None => false end) || wire_touches ops l i.
+Proof. reflexivity. Qed.
+Lemma mine_true r m : mine ((true, r) :: m) = r :: mine m. Proof. reflexivity. Qed.
+Lemma mine_false r m : mine ((false, r) :: m) = mine m. Proof. reflexivity. Qed.
+Lemma others_true r m : others ((true, r) :: m) = others m. Proof. reflexivity. Qed.
+Lemma others_false r m : others ((false, r) :: m) = r :: others m. Proof. reflexivity. Qed.
+
+Lemma concurrent_client ops : forall (m : list (bool * wreq)) (st st' : nat -> hstate),
+  (forall i, wire_touches ops (mine m) i = true -> wire_touches ops (others m) i = false) ->
+  (forall i, wire_touches ops (mine m) i = true -> st i = st' i) ->
+  tagged_replies m (wire_spec ops st (map snd m)) = wire_spec ops st' (mine m).
+Proof.
+  induction m as [|[tag r] m IH]; intros st st' Hdis Hst; [reflexivity|].
+  destruct tag.
+  - (* a request of the client *)
+    rewrite mine_true, others_true in *. cbn [map snd wire_spec]. unfold rstep.
+    assert (Htail : forall j, wire_touches ops (mine m) j = true -> wire_touches ops (r :: mine m) j = true).
+    { intros j Hj. rewrite touches_cons, Hj. apply orb_true_r. }
+    destruct (wire_route ops r) as [i|] eqn:Er.
+    + assert (Hi : st i = st' i).
+      { apply Hst. rewrite touches_cons, Er, Nat.eqb_refl. reflexivity. }
+      rewrite <- Hi. destruct (wire_serve i (st i) r) as [s' rep]. cbn [tagged_replies]. f_equal.
+      apply IH.
+      * intros j Hj. apply Hdis, Htail, Hj.
+      * intros j Hj. cbn [upd]. destruct (Nat.eqb j i); [reflexivity|]. apply Hst, Htail, Hj.
+    + cbn [tagged_replies]. f_equal. apply IH.
+      * intros j Hj. apply Hdis, Htail, Hj.
+      * intros j Hj. apply Hst, Htail, Hj.
+  - (* a request of somebody else *)
+    rewrite mine_false, others_false in *. cbn [map snd wire_spec]. unfold rstep.
+    assert (Hd : forall i, wire_touches ops (mine m) i = true ->
+                  match wire_route ops r with Some j => Nat.eqb j i | None => false end = false /\ wire_touches ops (others m) i = false).
+    { intros i Hi. specialize (Hdis i Hi). rewrite touches_cons in Hdis. apply orb_false_iff in Hdis. exact Hdis. }
+    destruct (wire_route ops r) as [j|] eqn:Er.
+    + destruct (wire_serve j (st j) r) as [s' rep]. cbn [tagged_replies].
+      apply IH.
+      * intros i Hi. apply (Hd i Hi).
+      * intros i Hi. cbn [upd]. destruct (Hd i Hi) as [Hne _]. rewrite Nat.eqb_sym, Hne. apply Hst, Hi.
+    + cbn [tagged_replies]. apply IH.
+      * intros i Hi. apply (Hd i Hi).
+      * exact Hst.
+Qed.
+
 (** the authority parser of the [http] crate, as transcribed for C07, accepts only text *)
 Lemma auth_loop_all_uri rest : forall len i colons sb eb pct at_pos e,
   Http1Read.auth_loop len rest i colons sb eb pct at_pos = Some e -> e = (i + length rest)%nat ->
